@@ -3,6 +3,8 @@ From Coq Require Import NArith List.
 From ACPI Require Import Lib.Bytes Lib.Sx Lib.Machine Impl.Table Spec.Layout Proofs.TableP Proofs.WalkP Proofs.Tables Proofs.Registry.
 From ACPI Require Import Impl.Madt Impl.Srat Impl.Mcfg Impl.Xsdt Spec.MadtS Spec.SratS Spec.McfgS Spec.XsdtS
   Proofs.MadtRefP Proofs.SratRefP Proofs.MadtWalkRefP Proofs.SratWalkRefP Proofs.McfgWalkRefP Proofs.XsdtWalkRefP.
+From ACPI Require Import Impl.Rhct Impl.Viot Impl.Rimt Impl.Hmat Spec.RhctS Spec.ViotS Spec.RimtS
+  Proofs.RhctWalkRefP Proofs.ViotWalkRefP Proofs.RimtWalkRefP Proofs.HmatP Proofs.HmatWalkP.
 Import ListNotations.
 Open Scope N_scope.
 
@@ -14,7 +16,8 @@ Theorem c03_walker_tiles :
     walk fuel h off (concat es) = Some (walk_result off es tys).
 Proof. exact walk_concat. Qed.
 
-(* For every table in the walk registry, after every history: from the specification's first-entry offset the walk over
+(* For every table in the walk registry (Proofs/Registry.v: MADT SRAT XSDT MCFG PPTT RHCT RIMT VIOT CEDT HEST), after every history
+   the model ACCEPTS, in both build profiles: from the specification's first-entry offset the walk over
    the emitted image finds exactly the entries that were added (in insertion order, with their own type codes and lengths),
    the image ends where the last entry ends, and the maintained entry count equals the number of entries. *)
 Theorem c03_tables :
@@ -30,6 +33,18 @@ Theorem c03_tables :
       t_cnt s = N.of_nat (length (t_ents s)).
 Proof. intros W _. exact (walktable_tiles W). Qed.
 
+(* HMAT (its structures carry a 32-bit length, so the instance needs each structure to be shorter than 2^32 bytes, which an
+   image shorter than 2^32 bytes guarantees): same statement, first entry at offset 40 *)
+Theorem c03_hmat :
+  forall md md' c ops s0 s,
+    hmat_new c = Some s0 -> run_adds (hmat_addition md) md' s0 ops = Some s -> N.of_nat (length (tbl_image s)) < 2 ^ 32 ->
+    exists tys,
+      Forall2 (self_describing H_u16_u16_u32) (t_ents s) tys /\
+      walk (length (t_ents s)) H_u16_u16_u32 40 (skipn 40 (tbl_image s)) = Some (walk_result 40 (t_ents s) tys) /\
+      concat (t_ents s) = skipn 40 (tbl_image s) /\
+      t_cnt s = N.of_nat (length (t_ents s)).
+Proof. exact hmat_tiles. Qed.
+
 (* ------------------------------------------------------------------------------------------------
    The run-time judgement itself as a theorem.  [c03_judge ts ctor img ops] is the boolean the check evaluates on the
    IMPLEMENTATION's bytes: the Spec walker started at the table's first-entry offset finds exactly the (type, length) list of
@@ -39,9 +54,13 @@ Theorem c03_reference_images_tile :
   (forall ctor ops r, ts_image madt_spec ctor ops = Some r -> c03_judge madt_spec ctor r ops = true) /\
   (forall ctor ops r, ts_image srat_spec ctor ops = Some r -> c03_judge srat_spec ctor r ops = true) /\
   (forall ctor ops r, ts_image mcfg_spec ctor ops = Some r -> c03_judge mcfg_spec ctor r ops = true) /\
-  (forall ctor ops r, ts_image xsdt_spec ctor ops = Some r -> c03_judge xsdt_spec ctor r ops = true).
+  (forall ctor ops r, ts_image xsdt_spec ctor ops = Some r -> c03_judge xsdt_spec ctor r ops = true) /\
+  (forall ctor ops r, ts_image rhct_spec ctor ops = Some r -> c03_judge rhct_spec ctor r ops = true) /\
+  (forall ctor ops r, ts_image viot_spec ctor ops = Some r -> c03_judge viot_spec ctor r ops = true) /\
+  (forall ctor ops r, ts_image rimt_spec ctor ops = Some r -> N.of_nat (length r) < 2 ^ 32 -> c03_judge rimt_spec ctor r ops = true).
 Proof.
-  repeat split; [exact madt_reference_tiles | exact srat_reference_tiles | exact mcfg_reference_tiles | exact xsdt_reference_tiles].
+  repeat split; [exact madt_reference_tiles | exact srat_reference_tiles | exact mcfg_reference_tiles | exact xsdt_reference_tiles
+                | exact rhct_reference_tiles | exact viot_reference_tiles | exact rimt_reference_tiles].
 Qed.
 
 Theorem c03_model_images_tile :
@@ -56,12 +75,23 @@ Theorem c03_model_images_tile :
                   c03_judge mcfg_spec ctor (tbl_image s) ops = true) /\
   (forall md ctor ops r, ts_image xsdt_spec ctor ops = Some r -> N.of_nat (length r) < 2 ^ 32 ->
      exists s0 s, xsdt_new ctor = Some s0 /\ run_adds xsdt_addition md s0 ops = Some s /\
-                  c03_judge xsdt_spec ctor (tbl_image s) ops = true).
+                  c03_judge xsdt_spec ctor (tbl_image s) ops = true) /\
+  (forall md ctor ops r, ts_image rhct_spec ctor ops = Some r -> N.of_nat (length r) < 2 ^ 32 ->
+     exists s0 s, rhct_new ctor = Some s0 /\ run_adds rhct_addition md s0 ops = Some s /\
+                  c03_judge rhct_spec ctor (tbl_image s) ops = true) /\
+  (forall md ctor ops r, ts_image viot_spec ctor ops = Some r ->
+     exists s0 s, viot_new ctor = Some s0 /\ run_adds viot_addition md s0 ops = Some s /\
+                  c03_judge viot_spec ctor (tbl_image s) ops = true) /\
+  (forall md ctor ops r, ts_image rimt_spec ctor ops = Some r -> N.of_nat (length r) < 2 ^ 32 ->
+     exists s0 s, rimt_new ctor = Some s0 /\ run_adds rimt_addition md s0 ops = Some s /\
+                  c03_judge rimt_spec ctor (tbl_image s) ops = true).
 Proof.
-  repeat split; [exact madt_model_tiles | exact srat_model_tiles | exact mcfg_model_tiles | exact xsdt_model_tiles].
+  repeat split; [exact madt_model_tiles | exact srat_model_tiles | exact mcfg_model_tiles | exact xsdt_model_tiles
+                | exact rhct_model_tiles | exact viot_model_tiles | exact rimt_model_tiles].
 Qed.
 
 Print Assumptions c03_walker_tiles.
 Print Assumptions c03_tables.
 Print Assumptions c03_reference_images_tile.
 Print Assumptions c03_model_images_tile.
+Print Assumptions c03_hmat.
